@@ -12,6 +12,13 @@ NOTE = ("Trusted: Coq 8.16.1 kernel (full .vo build, vm_compute for finite sweep
         "regenerated from /repo on every run (defs.jq parse trees, native registry). Third-party crates are modelled by contract.")
 
 CLAIMED = {
+    "C01": ("Model: the compiler (Core/Compile.v, mirrors compile.rs incl. Locals and the Tr/CallType analysis) and the interpreter "
+            "(Core/Run.v, mirrors filter.rs/path.rs/fold.rs/funs.rs for run, paths and update) over the value model. Tie: the model's "
+            "prelude is regenerated from the three defs.jq and the native registry of /repo on every run; compiled look-up tables of "
+            "the implementation are compared with the model compiler's forest (variable indices, skip counts, call wiring) and output "
+            "streams with the model interpreter on scope-aware random programs. Partial: compile_correct against a separately written "
+            "named semantics is not proved yet; proved so far: stream-algebra laws.", "7.1",
+            "Coq model + table/stream correspondence on generated programs (proof partial)"),
     "C08": ("Theorems: float_cmp is a total preorder with trichotomy on NaN-free floats; integer order/equality exact for every "
             "representation. Correspondence: all pairs of a 90-atom pool (every number representation and boundary) and random trees "
             "through comparison, object lookup/merge/equality, array subtraction, sort/unique/group_by/index; oracle: order axioms and "
